@@ -116,7 +116,7 @@ def _k10(limits):
     cfg['templates']['xx'] = {'prio': 60, 'demand': [11, 11, 11], 'aff': 'x'}
     cfg['events'] = cellcfg.ev(
         ('add', 'la'), ('add', 'xx'), ('add', 'mid'), ('add', 'fill'),
-        ('rm', 0), ('rm', 1), ('prio', 0, 100), ('noop',),
+        ('rm', 0), ('rm', 1), ('prio', 0, 100), ('rld',), ('noop',),
     )
     return cfg
 
